@@ -154,6 +154,11 @@ def run_shard(spec):
 
 
 def long_pair(r):
+    a, kind = long_base(r)
+    return a, long_edit(r, a, kind)
+
+
+def long_base(r):
     n = r.choice([257, 300, 300, 520, 700])
     kind = r.choice(["ints", "strs", "mixed", "dict", "lines"])
     if kind == "ints":
@@ -166,6 +171,11 @@ def long_pair(r):
         a = {"key%04d" % i: r.choice([i, "v%d" % i, [i, i + 1]]) for i in range(n)}
     else:
         a = "".join("line %d of a long text\n" % (i % r.choice([5, 10 ** 6])) for i in range(n))
+    return a, kind
+
+
+def long_edit(r, a, kind):
+    n = len(a) if kind != "lines" else a.count("\n")
     if kind == "dict":
         b = dict(a)
         for _ in range(r.randrange(1, 8)):
@@ -177,7 +187,7 @@ def long_pair(r):
                 b[k] = b[k] + [r.randrange(300, 900)]
             else:
                 b[k] = r.choice([r.randrange(1000), "new", b.get(k, 0) if not isinstance(b.get(k), int) else float(b[k])])
-        return a, b
+        return b
     items = a.splitlines(True) if kind == "lines" else list(a)
     out = list(items)
     for _ in range(r.randrange(1, 9)):
@@ -208,5 +218,4 @@ def long_pair(r):
                 out[k] = int(v)
     if r.random() < 0.3:
         out.append(("appended\n" if kind == "lines" else r.randrange(257, 9999)))
-    b = "".join(out) if kind == "lines" else out
-    return a, b
+    return "".join(out) if kind == "lines" else out
